@@ -149,8 +149,11 @@ def _check_candidates(ctx, fi, lst, expect_guard, expect_elem):
 class TableHooks(Hooks):
     def __init__(self, state):
         self.state = state
+        self.scanned = set()
 
     def call(self, interp, fv, args, kwargs, node):
+        if isinstance(fv, FuncV) and fv.fi.cls is not None and fv.fi.cls.name == "NameParser" and fv.fi.name.startswith("_find_"):
+            self.scanned.add(fv.fi.name)
         if isinstance(fv, FuncV) and fv.fi.cls is not None and fv.fi.cls.name == "NameParser":
             if fv.fi.name == "_find_a_number":
                 n = self.state["N"]
@@ -278,11 +281,27 @@ def run(ctx, repo, tier):
                 for N in (None, 0, 1, ">=2"):
                     states.append({"role": role, "zero": zero, "algo": algo, "N": N})
     other_exc = 0
+    unscanned = []
     for st in states:
         out, interp = evaluate_state(repo, ci, st)
         key = (st["role"], st["zero"], st["algo"], st["N"])
         table[key] = out
         ctx.instance("TABLE")
+        # a name is ACCEPTED only after both token scanners ran (they are what rejects two numbers / two algorithm tokens)
+        if out[0] == "ok":
+            miss = {"_find_a_number", "_find_algorithm"} - interp.hooks.scanned
+            if miss:
+                unscanned.append((key, sorted(miss)))
+    ctx.instance("DOM")
+    if unscanned:
+        k0, miss = unscanned[0]
+        ctx.violate("DOM", "C17.scan.dominates", f"a grid name is accepted on a path that never runs {', '.join(miss)}: the duplicate-token check "
+                    "of that scanner (two numbers / two algorithm tokens -> ValueError) is skipped, so e.g. a name with two algorithm tokens "
+                    "is accepted instead of rejected", ginit.where, "self.algo = self._find_algorithm()",
+                    witness=f"{len(unscanned)} accepted state(s) without the scan, first: role={k0[0]} 'zero' in name={k0[1]} N={k0[3]}")
+    else:
+        ctx.ok("DOM", "C17.scan.dominates", "every accepting path of GridNameParser.__init__ runs the number scanner and the algorithm scanner",
+               ginit.where)
     for f in interp.functions_entered:
         ctx.analysed(f)
     ctx.exhaustive = True
